@@ -30,9 +30,8 @@ def _set_bool(name):
     class _c:
         pass
     _c.props = ['C19']
-    _c.params = {'self': SETTINGS, 'name': Const(name), 'value': Str()}
+    _c.params = {'self': SETTINGS, 'name': Const(name), 'value': Str(['true', ' Yes ', 'off', '0', 'N', 'maybe', '', 'T', '1', 'on '])}   # pool: native evaluation only
     _c.modifies = [f'self.{name}']
-    _c.native = False
     _c.raises = {'ValueError': lambda value: norm(value) not in TRUE_WORDS and norm(value) not in FALSE_WORDS}
     _c.ensures = [('stores-the-parsed-boolean', lambda self, name, value: (getattr(self, name) is True and norm(value) in TRUE_WORDS)
                                                               or (getattr(self, name) is False and norm(value) in FALSE_WORDS))]
@@ -48,7 +47,6 @@ class set_nullvalue:
     props = ['C19']
     params = {'self': SETTINGS, 'name': Const('nullvalue'), 'value': Str()}
     modifies = ['self.nullvalue']
-    native = False
     ensures = [('stores-the-text-itself', lambda self, value: self.nullvalue == value)]
 
 
@@ -58,7 +56,7 @@ class set_format:
     params = {'self': SETTINGS, 'name': Const('format'), 'value': Str()}
     globals = FORMATS
     modifies = ['self.format']
-    native = False
+    native = False      # the registry of formats is a module global of the shell: evaluated natively by harness h19 instead
     raises = {'ValueError': lambda value, FORMATS: value not in FORMATS}
     ensures = [('stores-a-registered-format', lambda self, value, FORMATS: self.format == value and value in FORMATS)]
 
@@ -69,7 +67,6 @@ class set_unknown:
     params = {'self': SETTINGS, 'name': Str(), 'value': Str()}
     requires = lambda name: name not in ('boxed', 'expand', 'format', 'narrow', 'nullvalue', 'numberify', 'pager', 'spaced', 'unicode')
     modifies = []
-    native = False
     raises = {'AttributeError': None}
     ensures = [('never-returns-normally', lambda name: False)]
 
@@ -81,7 +78,6 @@ def _get_bool(name):
     _c.props = ['C19']
     _c.params = {'self': SETTINGS, 'name': Const(name)}
     _c.modifies = []
-    _c.native = False
     _c.ensures = [('echo-of-a-boolean', lambda self, name, result: result == ('true' if getattr(self, name) else 'false'))]
     return _c
 
@@ -96,7 +92,6 @@ class get_unknown:
     params = {'self': SETTINGS, 'name': Str()}
     requires = lambda name: name not in ('boxed', 'expand', 'format', 'narrow', 'nullvalue', 'numberify', 'pager', 'spaced', 'unicode')
     modifies = []
-    native = False
     raises = {'AttributeError': None}
     ensures = [('never-returns-normally', lambda name: False)]
 
@@ -108,7 +103,6 @@ def _get_str(name):
     _c.props = ['C19']
     _c.params = {'self': SETTINGS, 'name': Const(name)}
     _c.modifies = []
-    _c.native = False
     _c.ensures = [('echo-of-a-text-is-its-quoted-form', lambda self, name, result: result == repr(getattr(self, name)))]
     return _c
 
